@@ -97,6 +97,17 @@ class Prover(object):
         t0 = time.time()
         r = s.check()
         self.res.solver_s += time.time() - t0
+        if self.cvc5_rate > 0 and r != z3.unknown and self.rng.random() < self.cvc5_rate:
+            v2 = cvc5_decide(s, min(self.timeout_ms, 60000))
+            if v2 in ('sat', 'unsat'):
+                self.res.cvc5['checked'] += 1
+                if v2 == str(r):
+                    self.res.cvc5['agree'] += 1
+                else:
+                    self.res.cvc5['disagree'] += 1
+                    self.res.inconclusive.append('solver disagreement on a path-feasibility query: z3=%s cvc5=%s' % (r, v2))
+            else:
+                self.res.cvc5['skipped'] += 1
         if r == z3.unknown:
             return None, None
         return r == z3.sat, (s.model() if r == z3.sat else None)
